@@ -13,7 +13,7 @@
    of the Rust structs that the numeric model does not carry (mass, specific power, save_interval,
    history, force_max, pwr_cat_max) are embedded at their `None`/empty/zero value. *)
 From Coq Require Import ZArith List Bool String.
-From AltModel Require Import Num Interp Powertrain Loco Codec.
+From AltModel Require Import Num Interp Powertrain Loco Consist Codec.
 Import ListNotations.
 Local Open Scope string_scope.
 
@@ -381,5 +381,41 @@ Definition ptype_normalize (t : Ptype (F:=F)) : Ptype (F:=F) :=
 Definition loco_normalize (l : Loco (F:=F)) : Loco (F:=F) :=
   {| lc_type := ptype_normalize (lc_type l); lc_state := lc_state l; lc_assert_limits := lc_assert_limits l;
      lc_pwr_aux_offset := lc_pwr_aux_offset l; lc_pwr_aux_traction_coeff := lc_pwr_aux_traction_coeff l |}.
+
+(* ---------------------------------------------------------------- typed embedding of a Consist (Consist.v)
+   loco_vec as the sequence of its units' trees, pdct as a unit variant, the state field by field; history empty,
+   save_interval None, n_res_equipped (serde(skip)) at its default - the numeric model does not carry them. *)
+Definition consiststate_to_val (s : ConsistState (F:=F)) : val :=
+  VRec [vz (cs_i s); vnum (cs_pwr_out_max s); vnum (cs_pwr_rate_out_max s); vnum (cs_pwr_regen_max s);
+        vnum (cs_pwr_out_max_reves s); vnum (cs_pwr_out_deficit s); vnum (cs_pwr_out_max_non_reves s);
+        vnum (cs_pwr_regen_deficit s); vnum (cs_pwr_dyn_brake_max s); vnum (cs_pwr_out_req s); vnum (cs_pwr_cat_lim s);
+        vnum (cs_pwr_out s); vnum (cs_pwr_reves s); vnum (cs_pwr_fuel s); vnum (cs_energy_out s);
+        vnum (cs_energy_out_pos s); vnum (cs_energy_out_neg s); vnum (cs_energy_res s); vnum (cs_energy_fuel s)].
+Definition consiststate_of_val (v : val) : ConsistState (F:=F) :=
+  {| cs_i := gint (gfld v 0); cs_pwr_out_max := gnum (gfld v 1); cs_pwr_rate_out_max := gnum (gfld v 2);
+     cs_pwr_regen_max := gnum (gfld v 3); cs_pwr_out_max_reves := gnum (gfld v 4); cs_pwr_out_deficit := gnum (gfld v 5);
+     cs_pwr_out_max_non_reves := gnum (gfld v 6); cs_pwr_regen_deficit := gnum (gfld v 7);
+     cs_pwr_dyn_brake_max := gnum (gfld v 8); cs_pwr_out_req := gnum (gfld v 9); cs_pwr_cat_lim := gnum (gfld v 10);
+     cs_pwr_out := gnum (gfld v 11); cs_pwr_reves := gnum (gfld v 12); cs_pwr_fuel := gnum (gfld v 13);
+     cs_energy_out := gnum (gfld v 14); cs_energy_out_pos := gnum (gfld v 15); cs_energy_out_neg := gnum (gfld v 16);
+     cs_energy_res := gnum (gfld v 17); cs_energy_fuel := gnum (gfld v 18) |}.
+Definition pdct_to_val (p : Pdct) : val :=
+  match p with Proportional => VVar "Proportional" VNull | RESGreedy => VVar "RESGreedy" VNull end.
+Definition pdct_of_val (v : val) : Pdct :=
+  match v with VVar tag _ => if String.eqb tag "RESGreedy" then RESGreedy else Proportional | _ => Proportional end.
+Definition consist_to_val (c : Consist (F:=F)) : val :=
+  VRec [VSeq (map loco_to_val (cn_locos c)); pdct_to_val (cn_pdct c); VBool (cn_assert_limits c);
+        consiststate_to_val (cn_state c); hist_empty sch_consiststate; VNull; VNull].
+Definition consist_of_val (v : val) : Consist (F:=F) :=
+  {| cn_locos := map loco_of_val (gseq (gfld v 0)); cn_pdct := pdct_of_val (gfld v 1);
+     cn_assert_limits := gbool (gfld v 2); cn_state := consiststate_of_val (gfld v 3) |}.
+Definition consist_encode (c : Consist (F:=F)) : val := enc sch_consist (consist_to_val c).
+Definition consist_decode (e : val) : res (Consist (F:=F)) := let? v := dec sch_consist e in Ok (consist_of_val v).
+Definition consist_encode_pos (c : Consist (F:=F)) : list (atom F) := encp sch_consist (consist_to_val c).
+Definition consist_decode_pos (s : list (atom F)) : res (Consist (F:=F)) :=
+  let? vs := decp sch_consist s in Ok (consist_of_val (fst vs)).
+Definition consist_normalize (c : Consist (F:=F)) : Consist (F:=F) :=
+  {| cn_locos := map loco_normalize (cn_locos c); cn_pdct := cn_pdct c; cn_assert_limits := cn_assert_limits c;
+     cn_state := cn_state c |}.
 
 End Schemas.
